@@ -780,6 +780,8 @@ def run(ctx):
     for (c, L1, L2), (res, resw) in zip(cases, impl_results):
         oracle_case(ctx, c, L1, L2, res, resw)
     relations(ctx, cases, impl_results, IN, quick)
+    betweenness_checks(ctx, cases, quick)
+    ccn_checks(ctx, quick)
     if bad and not ctx.failures:
         # seed the search with the disagreeing cases: already covered by oracle_case above
         pass
@@ -967,3 +969,158 @@ def whole_network(ctx, c, rng):
                      f"single-network measure",
                      replay_of(c, perm, perm, method=nm, single_network=str(ref)[:300],
                                observed=str(got)[:300]))
+
+
+# --------------------------------------------------------------------------
+# betweenness (delegates to Network.interregional_betweenness): oracle only
+# --------------------------------------------------------------------------
+
+def path_counts(n, A, D):
+    """sigma[s][t] = number of shortest paths s -> t"""
+    sig = [[0] * n for _ in range(n)]
+    order = {}
+    for s in range(n):
+        order[s] = sorted((t for t in range(n) if D[s][t] is not None), key=lambda t: D[s][t])
+        sig[s][s] = 1
+        for t in order[s]:
+            if t == s:
+                continue
+            sig[s][t] = sum(sig[s][u] for u in range(n)
+                            if A[u][t] and D[s][u] is not None and D[s][u] + 1 == D[s][t])
+    return sig
+
+
+def oracle_betweenness(c, L1, L2):
+    n, D = c.n, c.Du
+    sig = path_counts(n, c.A, D)
+    out = [Fr(0)] * n
+    for s in L1:
+        for t in L2:
+            if s == t or D[s][t] is None:
+                continue
+            for i in range(n):
+                if i in (s, t) or D[s][i] is None or D[i][t] is None:
+                    continue
+                if D[s][i] + D[i][t] == D[s][t]:
+                    out[i] += Fr(sig[s][i] * sig[i][t], sig[s][t])
+    return out
+
+
+def betweenness_checks(ctx, cases, quick):
+    rng = ctx.rng
+    for c, L1, L2 in cases:
+        if c.directed or rng.random() > (0.25 if quick else 0.6):
+            continue
+        for nm, args, exp in (
+                ("cross_betweenness", (L1, L2), oracle_betweenness(c, L1, L2)),
+                ("internal_betweenness", (L1,), oracle_betweenness(c, L1, L1))):
+            got = call(lambda: getattr(c.net, nm)(*args))
+            ctx.count("oracle:betweenness")
+            if not same(got, [exp]):
+                ctx.fail(sig(nm, "definition-on-sub-blocks", c),
+                         f"{nm}{args} differs from the count of shortest paths between the "
+                         f"groups",
+                         replay_of(c, L1, L2, method=nm, expected=str(exp), observed=str(got)))
+
+
+# --------------------------------------------------------------------------
+# CoupledClimateNetwork wrappers: layers = (0..N1-1), (N1..N-1)
+# --------------------------------------------------------------------------
+
+def ccn_checks(ctx, quick):
+    from pyunicorn.climate import CoupledClimateNetwork
+    from pyunicorn.core import GeoGrid
+    rng = ctx.rng
+    for _ in range(6 if quick else 40):
+        N1 = rng.randrange(1, 5)
+        N2 = rng.randrange(1, 5)
+        n = N1 + N2
+        if n < 3:
+            N2 += 1
+            n += 1
+        t = np.arange(4.0)
+        g1 = GeoGrid(t, np.array([10.0 * k for k in range(N1)]),
+                     np.array([5.0 * k for k in range(N1)]), silence_level=3)
+        g2 = GeoGrid(t, np.array([-40.0 + 7.0 * k for k in range(N2)]),
+                     np.array([100.0 + 3.0 * k for k in range(N2)]), silence_level=3)
+        p = rng.choice([0.3, 0.5, 0.8])
+        bits = [rng.random() < p for _ in range(n * (n - 1) // 2)]
+        A = graph_from_bits(n, bits, False)
+        S = np.where(np.array(A) == 1, 0.9, 0.1)
+        np.fill_diagonal(S, 1.0)
+        try:
+            ccn = CoupledClimateNetwork(g1, g2, S, threshold=0.5, silence_level=3)
+        except Exception as e:  # noqa
+            ctx.count("ccn:constructor-raises:" + type(e).__name__)
+            continue
+        ccn.silence_level = 3
+        Aimpl = [[int(x) for x in r] for r in np.asarray(ccn.adjacency).tolist()]
+        if Aimpl != A:
+            ctx.count("ccn:adjacency-differs-from-thresholded-similarity")
+            A = Aimpl
+        c = Case()
+        c.n, c.directed, c.A, c.tag = n, False, A, "ccn"
+        c.w = [Fr(1)] * n
+        c.la = [[Fr(0)] * n for _ in range(n)]
+        c.Du = floyd(n, [[Fr(1) if A[a][b] else None for b in range(n)] for a in range(n)])
+        c.Dw, c.net = c.Du, ccn
+        o = Oracle(n, False, A, c.w, c.la, c.Du, c.Du)
+        L1, L2 = list(range(N1)), list(range(N1, n))
+        ctx.case(("ccn", A, N1), any(any(r) for r in A),
+                 {"class": "CoupledClimateNetwork", "adjacency": A, "N_1": N1})
+        ctx.count("ccn:networks")
+
+        def both(name):
+            return (getattr(o, name)(L1, L2), getattr(o, name)(L2, L1))
+
+        def pair(v):
+            return v if isinstance(v, str) else tuple(v)
+        table = [
+            ("adjacency_1", ccn.adjacency_1, o.internal_adjacency(L1, L2)),
+            ("adjacency_2", ccn.adjacency_2, o.internal_adjacency(L2, L1)),
+            ("cross_layer_adjacency", ccn.cross_layer_adjacency, o.cross_adjacency(L1, L2)),
+            ("path_lengths_1", ccn.path_lengths_1, o.internal_path_lengths(L1, L2)),
+            ("path_lengths_2", ccn.path_lengths_2, o.internal_path_lengths(L2, L1)),
+            ("cross_path_lengths", ccn.cross_path_lengths, o.cross_path_lengths(L1, L2)),
+            ("number_cross_layer_links", ccn.number_cross_layer_links,
+             o.number_cross_links(L1, L2)),
+            ("number_internal_links", ccn.number_internal_links, both("number_internal_links")),
+            ("cross_link_density", ccn.cross_link_density, o.cross_link_density(L1, L2)),
+            ("internal_link_density", ccn.internal_link_density, both("internal_link_density")),
+            ("cross_global_clustering", ccn.cross_global_clustering,
+             both("cross_global_clustering")),
+            ("cross_transitivity", ccn.cross_transitivity, both("cross_transitivity")),
+            ("cross_average_path_length", ccn.cross_average_path_length,
+             o.cross_average_path_length(L1, L2)),
+            ("internal_average_path_length", ccn.internal_average_path_length,
+             both("internal_average_path_length")),
+            ("cross_degree", ccn.cross_degree, both("cross_degree")),
+            ("internal_degree", ccn.internal_degree, both("internal_degree")),
+            ("cross_local_clustering", ccn.cross_local_clustering,
+             both("cross_local_clustering")),
+            ("cross_closeness", ccn.cross_closeness, both("cross_closeness")),
+            ("internal_closeness", ccn.internal_closeness, both("internal_closeness")),
+        ]
+        for nm, f, exp in table:
+            ctx.count("ccn:wrapper-calls")
+            try:
+                with warnings.catch_warnings():
+                    warnings.simplefilter("ignore")
+                    with np.errstate(all="ignore"):
+                        got = f()
+            except Exception as e:  # noqa
+                got = "raise:" + type(e).__name__
+            if isinstance(exp, tuple):
+                ok = (isinstance(got, tuple) and len(got) == 2 and all(
+                    (isinstance(e_, str) and e_.startswith("raise:")) or
+                    same(canon_impl(g_), shape_exact(e_)) for g_, e_ in zip(got, exp))) or \
+                    (isinstance(got, str) and got in [e_ for e_ in exp if isinstance(e_, str)])
+            else:
+                ok = same(canon_impl(got), shape_exact(exp))
+            if not ok:
+                ctx.fail({"class": "CoupledClimateNetwork", "method": nm,
+                          "relation": "wrapper-vs-definition-on-layers"},
+                         f"CoupledClimateNetwork.{nm}() differs from the definition on the "
+                         f"layer blocks (N_1={N1}, N_2={N2})",
+                         {"adjacency": A, "N_1": N1, "N_2": N2, "method": nm,
+                          "expected": str(exp)[:400], "observed": str(got)[:400]})
